@@ -120,7 +120,7 @@ class RawLinkLayer(LinkLayer):
                         and m[6:12] != self.mac_address
                     ):
                         self.receive_callback(m[14:])
-                except NotImplementedError as e:
+                except Exception as e:  # pylint: disable=broad-except
                     print("Error decoding packet: " + str(e))
             except OSError:
                 break
